@@ -668,7 +668,7 @@ func (ex *Exec) Call(fn value, args ...value) (res value, pan *targetPanic) {
 	return
 }
 
-// CallBounded is Call, except that exceeding the step bound inside the call does not end the path: the overrun is
+// CallBounded is Call, except that exceeding the step bound or the call-depth bound inside the call does not end the path: the overrun is
 // reported (unwound != "") and the step counter restarts, so that the caller can still run the other side of a
 // comparison ("one side terminates within the bound, the other does not").
 func (ex *Exec) CallBounded(fn value, args ...value) (res value, pan *targetPanic, unwound string) {
@@ -679,7 +679,7 @@ func (ex *Exec) CallBounded(fn value, args ...value) (res value, pan *targetPani
 				pan = &tp
 				return
 			}
-			if pe, ok := r.(pathEnd); ok && pe.kind == endUnwind && strings.HasPrefix(pe.msg, "step bound") {
+			if pe, ok := r.(pathEnd); ok && pe.kind == endUnwind && (strings.HasPrefix(pe.msg, "step bound") || strings.HasPrefix(pe.msg, "interpreter call depth bound")) {
 				unwound = pe.msg
 				ex.top, ex.depth = top, depth
 				ex.steps = 0
